@@ -355,11 +355,28 @@ func (c *Ctx) Report(f Finding) {
 	c.Findings = append(c.Findings, f)
 }
 
+// posIn: a position for a report inside fn; positions that the syntax normalisations left pointing
+// outside the repository (synthesised nodes) fall back to the function's own position.
+func (c *Ctx) posIn(fn *ssa.Function, pos token.Pos) token.Pos {
+	if fn == nil {
+		return pos
+	}
+	if !pos.IsValid() {
+		return fn.Pos()
+	}
+	if rel, err := filepath.Rel(RepoDir, c.Fset.Position(pos).Filename); err != nil || strings.HasPrefix(rel, "..") {
+		return fn.Pos()
+	}
+	return pos
+}
+
 func (c *Ctx) ReportAt(rule string, fn *ssa.Function, pos token.Pos, detail, msg string) {
+	pos = c.posIn(fn, pos)
 	c.Report(Finding{Rule: rule, Pkg: FuncPkg(fn), Func: FuncName(fn), Detail: detail, Pos: c.Position(pos), Msg: msg})
 }
 
 func (c *Ctx) Undecided(rule string, fn *ssa.Function, pos token.Pos, detail, msg string) {
+	pos = c.posIn(fn, pos)
 	c.Report(Finding{Rule: rule, Kind: "undecided", Pkg: FuncPkg(fn), Func: FuncName(fn), Detail: detail, Pos: c.Position(pos), Msg: msg})
 }
 
